@@ -165,7 +165,7 @@ func ttlAlphabet(cfg Cfg) []wire.Op {
 func runC09(c *rt.Ctx) {
 	var cfgs []Cfg
 	for _, o := range []string{"l1only", "l1l2", "l1l2b"} {
-		for _, h := range []string{"std", "chunked"} {
+		for _, h := range []string{"std", "chunked", "batched"} {
 			cfgs = append(cfgs, Cfg{Orca: o, Lock: "none", Proto: "binary", L1H: h})
 		}
 	}
